@@ -198,6 +198,9 @@ class Schedule:  # 0404
         if msg.code != Code._0404:
             return
 
+        if SZ_FRAGMENT not in msg.payload:  # e.g. the ack of a W|0404 (any gateway's)
+            return
+
         # can do via here, or via gwy.async_send_cmd(cmd)
         # next line also in self._get_schedule(), so protected here with a lock
         if msg.payload[SZ_TOTAL_FRAGS] != 0xFF and self.tcs.zone_lock_idx != self.idx:
